@@ -22,6 +22,8 @@ func init() {
 		Run: runC24,
 		Controls: []Control{
 			{Name: "idle-fsms-dropped-when-a-connection-comes-in", File: "protocols/bgp/server/server.go", Old: "\t\tpeer.fsms = append(peer.fsms, fsm)\n", New: "\t\tkeep := make([]*FSM, 0, len(peer.fsms)+1)\n\t\tfor _, f := range peer.fsms {\n\t\t\tif f.con != nil {\n\t\t\t\tkeep = append(keep, f)\n\t\t\t}\n\t\t}\n\t\tpeer.fsms = append(keep, fsm)\n", Expect: "only-ended-fsms-leave-the-list"},
+			{Name: "open-announces-the-server-router-id", File: "protocols/bgp/server/fsm.go", Old: "\t\tBGPIdentifier: fsm.peer.routerID,\n", New: "\t\tBGPIdentifier: fsm.peer.routerID | fsm.peer.server.config.RouterID,\n", Expect: "announced-identifier-is-the-compared-one"},
+			{Name: "second-connection-closed-in-the-accept-loop", File: "protocols/bgp/server/server.go", Old: "\t\tlog.WithFields(log.Fields{\n\t\t\t\"source\": c.Conn.RemoteAddr(),\n\t\t}).Info(\"Incoming TCP connection\")\n", New: "\t\tif peer.singleFSM() != nil {\n\t\t\tc.Conn.Close()\n\t\t\tcontinue\n\t\t}\n\t\tlog.WithFields(log.Fields{\n\t\t\t\"source\": c.Conn.RemoteAddr(),\n\t\t}).Info(\"Incoming TCP connection\")\n", Expect: "known-peers-connection-reaches-an-fsm"},
 			{Name: "remove-truncates-at-the-match", File: "protocols/bgp/server/peer.go", Old: "\tfsms := make([]*FSM, 0, len(p.fsms))\n\tfor _, f := range p.fsms {\n\t\tif f != fsm {\n\t\t\tfsms = append(fsms, f)\n\t\t}\n\t}\n\n\tp.fsms = fsms\n", New: "\tfor i := range p.fsms {\n\t\tif p.fsms[i] != fsm {\n\t\t\tcontinue\n\t\t}\n\t\tcopy(p.fsms[i:], p.fsms[i+1:])\n\t\tp.fsms = p.fsms[:i]\n\t\treturn\n\t}\n", Expect: "ended-fsm-alone-leaves-the-list"},
 			{Name: "refactor-remove-cuts-in-place", Silent: true, File: "protocols/bgp/server/peer.go", Old: "\tfsms := make([]*FSM, 0, len(p.fsms))\n\tfor _, f := range p.fsms {\n\t\tif f != fsm {\n\t\t\tfsms = append(fsms, f)\n\t\t}\n\t}\n\n\tp.fsms = fsms\n", New: "\tfor i := range p.fsms {\n\t\tif p.fsms[i] != fsm {\n\t\t\tcontinue\n\t\t}\n\t\tcopy(p.fsms[i:], p.fsms[i+1:])\n\t\tp.fsms = p.fsms[:len(p.fsms)-1]\n\t\treturn\n\t}\n"},
 			{Name: "collision-check-stops-at-first-non-openconfirm", File: "protocols/bgp/server/peer.go", Old: "\t\tif !isOpenConfirm {\n\t\t\tcontinue\n\t\t}\n", New: "\t\tif !isOpenConfirm {\n\t\t\treturn false\n\t\t}\n", Expect: "collision-path"},
@@ -38,6 +40,8 @@ func init() {
 }
 
 func runC24(c *core.Ctx) {
+	announcedIdentifierIsTheComparedOne(c, "announced-identifier-is-the-compared-one")
+	knownPeersConnectionReachesAnFSM(c, "known-peers-connection-reaches-an-fsm")
 	p := c.P
 	stateT := p.Named(srv, "state")
 	if stateT == nil {
